@@ -1,6 +1,7 @@
 package sim
 
 import (
+	"encoding/json"
 	"fmt"
 	"math/big"
 	"sort"
@@ -356,6 +357,32 @@ func init() {
 					w.Fail("C02", "sum of balances != supply: %s", msg)
 				}
 			}()
+			// a genesis document exported from this state (either export mode) carries this supply: exporting mints and
+			// burns nothing. Looked at while an order waits in the accepted queue (at most three times per history).
+			n, _ := w.Notes["c02.exports"].(int)
+			if n < 3 && len(w.C.App.EnterpriseKeeper.GetAllAcceptedPurchaseOrders(ctx)) > 0 && !w.stop() {
+				w.Notes["c02.exports"] = n + 1
+				for i, export := range []func() ([]byte, error){w.C.Export, w.C.ExportZeroHeight} {
+					mode := []string{"export", "export for zero height"}[i]
+					doc, err := export()
+					if err != nil {
+						continue // C15's subject
+					}
+					var g struct {
+						Bank struct {
+							Supply sdk.Coins `json:"supply"`
+						} `json:"bank"`
+					}
+					if json.Unmarshal(doc, &g) != nil {
+						continue
+					}
+					w.Class("c02.exported-supply-compared")
+					if !g.Bank.Supply.IsEqual(after) {
+						w.Fail("C02", "the %s of a state with supply %s (an accepted order is queued) carries the supply %s", mode, after, g.Bank.Supply)
+						return
+					}
+				}
+			}
 		},
 	})
 }
